@@ -28,6 +28,7 @@ func cmdOpaque(args []string) {
 	fs.Parse(args)
 	scs := readScenarios(*scen)
 	em := NewEmitter(*out)
+	probedCells := 0 // probing is expensive; a few probed generators decide the rule
 	for i, sc := range scs {
 		restore := setEnv(sc.MaxTrials, sc.FailRateOne)
 		body, err := genBody(sc)
@@ -53,7 +54,8 @@ func cmdOpaque(args []string) {
 			base, o := run(nil, rep)
 			ev := map[string]interface{}{"op": "opaque", "id": i, "kind": sc.Kind, "tag": sc.Tag, "unann": o.Unannounced, "draws": len(o.Draws),
 				"probed": 0, "outcomes": 0, "rereads": 0, "baseKind": base.Kind}
-			if o.Unannounced > 0 {
+			if o.Unannounced > 0 && probedCells < 4 {
+				probedCells++
 				// vary the first unannounced word, everything else fixed
 				outcomes := map[string]int{}
 				probes := []uint32{}
